@@ -19,6 +19,8 @@ def attribute(run, line, verdict):
     if line:
         ev = evs[line - 1]
         k = ev.get("e")
+        if k == "Ctx" or (k == "Start" and ev.get("sp16", 0) != 0):
+            return "C02"          # registers / FP control state / stack alignment
         if k in ("MigReq", "MigRet", "MigCb", "MigCount") or (k == "Back" and "pool" in ev):
             return "C13"
         if k in ("Prim", "Run", "Obs"):
@@ -53,7 +55,8 @@ def attribute(run, line, verdict):
             return "C06"          # every unit ran to completion; the stream join / finalize does not return
         return "C13"
     if scn == "switch":
-        return "C11"
+        # a context restored wrongly usually ends in a crash
+        return "C11+C02" if verdict.startswith("crash") else "C11"
     if scn == "xjoin":
         return "C06"
     if scn == "cancelmix":
@@ -97,9 +100,11 @@ def attribute(run, line, verdict):
     return "C01"
 
 
-def run_exec(pid, tier, seed, emphasis, scns=("exec",)):
+def run_exec(pid, tier, seed, emphasis, scns=("exec",), pre=None):
     chk = vlib.Check(pid, tier, seed)
     quick = tier == "quick"
+    if pre:
+        pre(chk)
     vlib.tlc_check(chk, "H_Exec abstract life cycle, exhaustive (2 units)", os.path.join(SPEC, "H_ExecMC.tla"),
                    os.path.join(SPEC, "H_ExecMC.cfg"), timeout=600)
     vlib.tlc_check(chk, "H_Exec with migration, exhaustive (1 unit, 2 pools)", os.path.join(SPEC, "H_ExecMC.tla"),
